@@ -6,9 +6,9 @@ CONSTANTS
   MaxRefuse = 2
   MaxFeed = 1
   MaxEof = 1
-  SlowSet = {}
+  SlowSet = {"C", "D", "X"}
   CfgWrite = FALSE
-  NCl = 1
+  NCl = 2
 INVARIANT MonitorQuiet
 INVARIANT OneReceivePath
 INVARIANT LockDiscipline
